@@ -5,6 +5,8 @@
 use std::fmt::Write as _;
 use std::panic::{catch_unwind, AssertUnwindSafe};
 
+#[cfg(not(feature = "serde"))]
+use crate::serde_json;
 use crate::est::hex;
 
 pub trait HistT: Sized + Clone {
@@ -134,17 +136,37 @@ macro_rules! hist_macro_impl {
     ($t:ty, $len:expr) => {
         impl HistT for $t {
             hist_common!($len, average::InvalidRangeError);
+            #[cfg(feature = "serde")]
             fn h_to_json(&self) -> Option<String> {
                 Some(serde_json::to_string(self).unwrap())
             }
+            #[cfg(feature = "serde")]
             fn h_from_json(s: &str) -> Option<Result<Self, String>> {
                 Some(serde_json::from_str(s).map_err(|e| e.to_string()))
             }
+            #[cfg(feature = "serde")]
             fn h_to_value(&self) -> Option<serde_json::Value> {
                 Some(serde_json::to_value(self).unwrap())
             }
+            #[cfg(feature = "serde")]
             fn h_from_value(v: serde_json::Value) -> Option<Result<Self, String>> {
                 Some(serde_json::from_value(v).map_err(|e| e.to_string()))
+            }
+            #[cfg(not(feature = "serde"))]
+            fn h_to_json(&self) -> Option<String> {
+                None
+            }
+            #[cfg(not(feature = "serde"))]
+            fn h_from_json(_s: &str) -> Option<Result<Self, String>> {
+                None
+            }
+            #[cfg(not(feature = "serde"))]
+            fn h_to_value(&self) -> Option<serde_json::Value> {
+                None
+            }
+            #[cfg(not(feature = "serde"))]
+            fn h_from_value(_v: serde_json::Value) -> Option<Result<Self, String>> {
+                None
             }
         }
     };
@@ -152,6 +174,8 @@ macro_rules! hist_macro_impl {
 
 mod macro_impls {
     use super::HistT;
+    #[cfg(not(feature = "serde"))]
+    use crate::serde_json;
     use crate::types::*;
     use average::Histogram as _;
     hist_macro_impl!(H1, 1);
@@ -173,6 +197,8 @@ mod macro_impls {
 #[cfg(feature = "nightly")]
 mod const_impls {
     use super::HistT;
+    #[cfg(not(feature = "serde"))]
+    use crate::serde_json;
     use average::histogram_const::Histogram;
     macro_rules! hist_const_impl {
         ($len:expr) => {
